@@ -112,7 +112,10 @@ def run(args) -> int:
         if Lb['modal'] and La['modal']:
             # nested modalities where an outer world already carries the inner operand (valid in every normal modal logic
             # whose designated contradictions close; decided by the weaker logic's own verdict)
-            for a_ in ('b:a:MKMaLNa', 'MKcMAab:a:MKcMa', 'MMa:MMKab', 'b:a:MMKaLNMa', 'MAab:a:Ma'):
+            for a_ in ('b:a:MKMaLNa', 'MKcMAab:a:MKcMa', 'MMa:MMKab', 'b:a:MMKaLNMa', 'MAab:a:Ma',
+                       # reflexivity-dependent, with a premise that brings the branch up to its projected number of worlds;
+                       # literals of one letter at two worlds (closure is per world)
+                       'LCLaa:LMb', 'LCLaa:LMb:LMc', 'AKabLNa:b', 'AKabMNa:b'):
                 args_.append(dict(argstr=a_))
         if Lb['modal'] and La['modal'] and Lb['quantified'] and La['quantified']:
             # constant-domain interplay of quantifiers and modalities (Barcan-style), valid in every such logic
